@@ -55,6 +55,8 @@ class Inliner:
         if isinstance(f, ast.Name):
             q = "%s.%s" % (self.modname, f.id)
             node = self.world.funcs.get(q)
+            if isinstance(node, tuple):
+                node = node[1]
             if isinstance(node, (ast.FunctionDef, ast.AsyncFunctionDef)):
                 return ("func", f.id, node)
         return None
@@ -174,9 +176,11 @@ class Inliner:
         body = [ren.visit(s) for s in body]
         pre = []
         for p in params:
-            pre.append(ast.copy_location(ast.Assign(
+            b = ast.copy_location(ast.Assign(
                 [ast.Name(p + suffix, ast.Store())],
-                copy.deepcopy(bind[p])), at))
+                copy.deepcopy(bind[p])), at)
+            b._inline_param = True
+            pre.append(b)
         body = self._block(body, stack + (name,), depth + 1)
         blk = InlineBlock(body=pre + body)
         ast.copy_location(blk, at)
